@@ -21,6 +21,9 @@ import time
 
 VERIF = os.path.dirname(os.path.dirname(os.path.abspath(__file__)))
 PY = "/venv/bin/python"
+# VERIF_SNAP=<dir>: run the checks from a snapshot (git worktree of /verif HEAD) so that /verif/mc
+# can be edited while a long evaluation is running; results still go to /verif/seeded
+CHECK_HOME = os.environ.get("VERIF_SNAP") or VERIF
 
 
 def sh(cmd, cwd=None, env=None, timeout=3600):
@@ -88,7 +91,7 @@ def main():
         results = {}
         for c in checks:
             t0 = time.time()
-            rc, out = sh("%s/check %s --tier %s" % (VERIF, c, tier), cwd=VERIF, env={"VERIF_REPO": wt})
+            rc, out = sh("%s/check %s --tier %s" % (CHECK_HOME, c, tier), cwd=CHECK_HOME, env={"VERIF_REPO": wt})
             vio = [l for l in out.splitlines() if l.startswith("VIOLATION")]
             expl = [l for l in out.splitlines() if l.startswith("# ")]
             results[c] = {"exit": rc, "violations": len(vio), "wall_s": round(time.time() - t0, 1),
